@@ -2,6 +2,7 @@ import Ovldverif.Spec.Resolve
 import Ovldverif.Spec.Types
 import Ovldverif.Props.C13
 import Ovldverif.Lemmas.Fuel
+import Ovldverif.Props.C06
 /-!
 # C02 — the documented rule read up to mutual subclassing is the documented rule
 
@@ -119,6 +120,59 @@ theorem C07_nextSpecE_eq (wf : H.WF) (anti : H.Antisym) (ms : List Meth) (hst : 
       rw [beatsE_eq H wf anti hst k hm hc]
     rw [hf]
     exact C02_specE_eq H wf anti _ (staticTable_filter hst _) k
+
+/-! ### the rule read up to mutual subclassing is, like the other reading, a function of the applicable entries
+
+so it does not depend on the order of registration and ignores entries that are not applicable — on EVERY hierarchy
+(no antisymmetry, no well-formedness needed): the oracle the harness applies to twin-protocol worlds is itself
+order-independent. -/
+
+theorem winnersE_perm_of_applicable (ms ms' : List Meth) (k : Key)
+    (hap : (applicable H ms' k).Perm (applicable H ms k)) :
+    (winnersE H ms' k).Perm (winnersE H ms k) := by
+  unfold winnersE
+  have hf : (fun m : Meth => (applicable H ms' k).all (fun m' => m'.id == m.id || beatsE H k m m')) =
+      (fun m : Meth => (applicable H ms k).all (fun m' => m'.id == m.id || beatsE H k m m')) := by
+    funext m
+    exact hap.all_eq
+  show (List.filter _ (applicable H ms' k)).Perm (List.filter _ (applicable H ms k))
+  rw [hf]
+  exact hap.filter _
+
+theorem specResolveE_of_applicable_perm (ms ms' : List Meth) (k : Key)
+    (hap : (applicable H ms' k).Perm (applicable H ms k)) :
+    specResolveE H ms' k = specResolveE H ms k := by
+  have hw := winnersE_perm_of_applicable H ms ms' k hap
+  have he := hap.isEmpty_eq
+  unfold specResolveE
+  rw [he]
+  generalize winnersE H ms' k = l' at hw
+  generalize winnersE H ms k = l at hw
+  match l, hw with
+  | [], hw =>
+    have : l' = [] := List.Perm.eq_nil hw
+    subst this
+    rfl
+  | [w], hw =>
+    have : l' = [w] := List.perm_singleton.mp hw
+    subst this
+    rfl
+  | a :: b :: r, hw =>
+    have hl := hw.length_eq
+    match l', hl with
+    | a' :: b' :: r', _ => rfl
+
+/-- the rule read up to mutual subclassing does not depend on the order of registration, on any hierarchy -/
+theorem C06_specE_perm (ms ms' : List Meth) (hp : ms'.Perm ms) (k : Key) :
+    specResolveE H ms' k = specResolveE H ms k :=
+  specResolveE_of_applicable_perm H ms ms' k (applicable_perm H ms ms' hp k)
+
+/-- … and ignores entries that are not applicable to the call -/
+theorem C06_specE_irrelevant (ms extra : List Meth) (k : Key)
+    (hx : ∀ m ∈ extra, applicableTo H k m = false) :
+    specResolveE H (ms ++ extra) k = specResolveE H ms k := by
+  apply specResolveE_of_applicable_perm
+  rw [applicable_append_irrelevant H ms extra k hx]
 
 /-- outside antisymmetry the readings differ — twin protocols 1 and 2 (each a subclass of the other), methods on
     `(1, 2)` and `(2, 1)`: read with equality each beats the other and both "win"; read up to mutual subclassing
